@@ -166,8 +166,22 @@ func genC04(out, tier string, rng *rand.Rand) {
 		}
 	}
 	RunTasksNT(sink, htasks, histNontrivial)
+	// conditions are judged against the object as it is when the request takes effect: every
+	// interleaving of a conditional delete / upload / patch with another writer of the same object
+	{
+		genCur := [4]CParam{GenOf(c07B, "obj", 0), Raw(""), Raw(""), Raw("")}
+		metaCur := [4]CParam{Raw(""), Raw(""), MetaOf(c07B, "obj", 0), Raw("")}
+		genNot := [4]CParam{Raw(""), GenOf(c07B, "obj", 0), Raw(""), Raw("")}
+		addObjectInterleavings(sink, Req{Kind: "delete", B: c07B, N: "obj", CP: genCur}, 2, nil, []int{0, 3, 4, 5, 6}, "cond-delete-gen")
+		addObjectInterleavings(sink, Req{Kind: "delete", B: c07B, N: "obj", CP: metaCur}, 2, nil, []int{0, 3}, "cond-delete-metagen")
+		addObjectInterleavings(sink, Req{Kind: "delete", B: c07B, N: "obj", CP: genNot}, 2, nil, []int{0, 6}, "cond-delete-gen-not")
+		condUp, _ := c07Request(1, 1)
+		addObjectInterleavings(sink, condUp, 2, nil, []int{0, 3, 4, 6}, "cond-upload")
+		condPatch, _ := c07Request(3, 1)
+		addObjectInterleavings(sink, condPatch, 2, nil, []int{0, 3, 4, 5}, "cond-patch")
+	}
 	sink.Close("complete truth table: 4 condition parameters x {unset, =current, current-1 (generation) or current+1 (metageneration), \"0\", \"-7\", \"12x\"} x object state "+
 		"{absent, fresh, patched, overwritten} x operation {media, multipart, resumable, patch, delete, compose destination, compose source} x store {mem, file}; "+
 		"plus resumable sessions whose object is patched / overwritten / deleted / re-created between the opening request and the last byte (tag session-conditions); each case = setup + operation + metadata/media GET of every object; distinct = distinct canonical (program, observation) text; "+
-		"non-trivial = at least one condition parameter supplied; followed by random histories (tag history) with conditions on one request in three", true)
+		"non-trivial = at least one condition parameter supplied; followed by random histories (tag history) with conditions on one request in three; and every interleaving (at the yield points between precondition check and store mutation, and at lock acquisition) of a conditional delete (generation, metageneration, generation-not-match), a conditional upload and a conditional patch with a second writer of the object (upload, patch, delete, compose, copy), both stores, step by step against the interleaving model", true)
 }
